@@ -37,6 +37,13 @@ def feature_tables(n, small=False):
     if n >= 4:
         # a `source`-typed feature that touches both ends without being the whole circle (an origin-spanning join)
         extra.append([("source", [(n - 2, n, 1), (0, 2, 1)], {"organism": ["part"]})])
+    if n >= 2:
+        # between-bases markers (GenBank `4^5`: a cut site, an insertion point): zero-length locations, on either strand,
+        # also at the origin itself, alone and as a part of a join
+        extra.append([("misc_feature", [(1, 1, 1)], {"label": ["cut"]}), ("misc_feature", [(n - 1, n - 1, -1)], {"label": ["cut-rev"]}),
+                      ("misc_feature", [(0, 0, None)], {"label": ["origin"]})])
+    if n >= 3:
+        extra.append([("misc_feature", [(0, 1, 1), (2, 2, 1)], {"label": ["join-with-marker"]})])
     if small:
         keep = [0, 1, 2, 4, 5, 6, 8, 10, 12, 13]
         tables = [t for i, t in enumerate(tables) if i in keep]
@@ -69,7 +76,12 @@ def den_parts(feature, n):
         return None
     out = []
     for p in loc.parts:
-        out.append((tuple((int(p.start) + t) % n for t in range(int(p.end) - int(p.start))), p.strand))
+        if int(p.end) == int(p.start):
+            # a zero-length part denotes the boundary before position `start`: written as the half-integer position
+            # start - 1/2 (rotations add to it, the mirror image n - 1 - x sends it to the boundary it should)
+            out.append((((int(p.start) - 0.5) % n,), p.strand))
+        else:
+            out.append((tuple((int(p.start) + t) % n for t in range(int(p.end) - int(p.start))), p.strand))
     return out
 
 
@@ -84,7 +96,7 @@ def reading(den, text):
         return None
     out = []
     for (pos, strand) in den:
-        letters = [text[p] for p in pos]
+        letters = [text[p] for p in pos if isinstance(p, int)]      # (a boundary marker spells nothing)
         rc_ = [_COMP.get(c.upper(), c) if c.isupper() else _COMP.get(c.upper(), c).lower() for c in reversed(letters)]
         if strand == -1:
             letters = rc_
